@@ -1,5 +1,6 @@
 import IkeModel
 import IkeModel.GenAbs
+import IkeModel.GenAbsEap
 
 /-! Driver for the GENERATED model (`IkeModel/Generated/Gen_message.lean`, written by
 `tools/go2lean` from /repo's current source): the same line protocol as `Driver.lean`, the same
@@ -8,6 +9,8 @@ implementation with what the translator says the Go source means.  A disagreemen
 the translator (or of GoRt), i.e. of the trusted base — never silently ignored. -/
 
 open Ike Ike.Gen.message
+
+abbrev GE := Ike.Gen.eap.EAP
 
 def gresStr {α : Type} (f : α → String) : Res α → String
   | .ok a => "ok " ++ f a
@@ -28,7 +31,7 @@ def gPayloadKindCode (k : String) : Option UInt8 :=
   | "EAP" => some Facts.typeEAP
   | _ => none
 
-def gDecOp (name : String) (b : Bytes) : String :=
+def gDecMsgOp (name : String) (b : Bytes) : String :=
   if name == "msg" then gresStr (optStr (fun m => (sxMsg m).toStr)) ((IKEMessage.Decode {} b).map GenAbs.absMsg)
   else if name == "hdr" then gresStr (fun h => (sxHeaderFull h).toStr) ((ParseHeader b).map GenAbs.absHeader)
   else if name.startsWith "pl-" then
@@ -44,6 +47,91 @@ def gDecOp (name : String) (b : Bytes) : String :=
     | none => "bad-op"
   else "unsupported"
 
+/-! ### package eap -/
+
+/-- `(AKA sub (SET t xV)...)` built through the GENERATED `SetAttr` -/
+def gRdAkaSets (a : Gen.eap.EapAkaPrime) : List Sx → Option (Res Gen.eap.EapAkaPrime)
+  | [] => some (.ok a)
+  | .list [.atom "SET", t, v] :: rest => do
+    match Gen.eap.EapAkaPrime.SetAttr a (UInt8.ofNat (← t.nat?)) (← v.bytes?) with
+    | .ok a' => gRdAkaSets a' rest
+    | .err => some .err
+    | .fault => some .fault
+  | _ => none
+
+def gRdEapData : Sx → Option (Res Gen.eap.EapTypeData)
+  | .atom "nil" => some (.ok .nil_)
+  | .list [.atom "ID", d] => do pure (.ok (.EapIdentity { IdentityData := (← d.bytes?) }))
+  | .list [.atom "NOTIF", d] => do pure (.ok (.EapNotification { NotificationData := (← d.bytes?) }))
+  | .list [.atom "NAK", d] => do pure (.ok (.EapNak { NakData := (← d.bytes?) }))
+  | .list [.atom "EXP", v, t, d] => do
+    pure (.ok (.EapExpanded { VendorID := UInt32.ofNat (← v.nat?), VendorType := UInt32.ofNat (← t.nat?), VendorData := (← d.bytes?) }))
+  | .list (.atom "AKA" :: st :: sets) => do
+    let a0 ← (match Gen.eap.NewEapAkaPrime (UInt8.ofNat (← st.nat?)) with | .ok a => some a | _ => none)
+    let r ← gRdAkaSets a0 sets
+    pure (match r with | .ok a => .ok (.EapAkaPrime a) | .err => .err | .fault => .fault)
+  | _ => none
+
+def gRdEap : Sx → Option (Res Gen.eap.EAP)
+  | .list [.atom "EAP", c, i, d] => do
+    let rd ← gRdEapData d
+    let code := UInt8.ofNat (← c.nat?)
+    let ident := UInt8.ofNat (← i.nat?)
+    pure (match rd with | .ok x => .ok { Code := code, Identifier := ident, EapTypeData := x } | .err => .err | .fault => .fault)
+  | _ => none
+
+def gEncEapOp (ts : Array String) : String :=
+  match Sx.parseTokens ts 2 with
+  | some (s, _) =>
+    match gRdEap s with
+    | some (.ok e) => gresStr xhex (Gen.eap.EAP.Marshal e)
+    | some .err => "set-refused"
+    | some .fault => "panic"
+    | none => "bad-eap"
+  | none => "bad-sx"
+
+def gAkaSetSeq (a : Gen.eap.EapAkaPrime) (acc : List String) : List Sx → Option (Res (Gen.eap.EapAkaPrime × List String))
+  | [] => some (.ok (a, acc.reverse))
+  | .list [.atom "SET", t, v] :: rest => do
+    match Gen.eap.EapAkaPrime.SetAttr a (UInt8.ofNat (← t.nat?)) (← v.bytes?) with
+    | .ok a' => gAkaSetSeq a' ("ok" :: acc) rest
+    | .err => gAkaSetSeq a ("err" :: acc) rest
+    | .fault => some .fault
+  | _ => none
+
+partial def gSxRest (ts : Array String) (i : Nat) (acc : Array Sx) : Option (List Sx) :=
+  if i ≥ ts.size then some acc.toList
+  else match Sx.parseTokens ts i with
+    | some (v, j) => gSxRest ts j (acc.push v)
+    | none => none
+
+def gAkasetOp (ts : Array String) : String :=
+  match (ts[1]?).bind String.toNat?, gSxRest ts 2 #[] with
+  | some st, some sets =>
+    match Gen.eap.NewEapAkaPrime (UInt8.ofNat st) with
+    | .ok a0 =>
+      match gAkaSetSeq a0 [] sets with
+      | some (.ok (a, rs)) => " ".intercalate (rs ++ [(sxEapData (.aka (GenAbs.absAka a))).toStr])
+      | some .err => "err"
+      | some .fault => "panic"
+      | none => "bad-set"
+    | _ => "panic"
+  | _, _ => "bad-args"
+
+def gDecEapOp (name : String) (b : Bytes) : Option String :=
+  if name == "eap" then some (gresStr (fun e => (sxEap e).toStr) ((Gen.eap.EAP.Unmarshal {} b).map GenAbs.absEap))
+  else if name == "eapm-ID" then
+    some (gresStr (fun d => (sxEapData d).toStr) ((Gen.eap.EapIdentity.Unmarshal {} b).map (fun v => GenAbs.absEapData (.EapIdentity v))))
+  else if name == "eapm-NOTIF" then
+    some (gresStr (fun d => (sxEapData d).toStr) ((Gen.eap.EapNotification.Unmarshal {} b).map (fun v => GenAbs.absEapData (.EapNotification v))))
+  else if name == "eapm-NAK" then
+    some (gresStr (fun d => (sxEapData d).toStr) ((Gen.eap.EapNak.Unmarshal {} b).map (fun v => GenAbs.absEapData (.EapNak v))))
+  else if name == "eapm-EXP" then
+    some (gresStr (fun d => (sxEapData d).toStr) ((Gen.eap.EapExpanded.Unmarshal {} b).map (fun v => GenAbs.absEapData (.EapExpanded v))))
+  else if name == "eapm-AKA" then
+    some (gresStr (fun d => (sxEapData d).toStr) ((Gen.eap.EapAkaPrime.Unmarshal {} b).map (fun v => GenAbs.absEapData (.EapAkaPrime v))))
+  else none
+
 def gEncMsgOp (ts : Array String) : String :=
   match Sx.parseTokens ts 2 with
   | some (s, _) =>
@@ -52,8 +140,18 @@ def gEncMsgOp (ts : Array String) : String :=
     | none => "bad-msg"
   | none => "bad-sx"
 
+def gDecOp (name : String) (b : Bytes) : String :=
+  match gDecEapOp name b with
+  | some r => r
+  | none => gDecMsgOp name b
+
 def gReencOp (kind : String) (b : Bytes) : String :=
-  if kind == "msg" then
+  if kind == "eap" then
+    match Gen.eap.EAP.Unmarshal {} b with
+    | .ok e => gresStr xhex (Gen.eap.EAP.Marshal e)
+    | .err => "decode-err"
+    | .fault => "decode-panic"
+  else if kind == "msg" then
     match IKEMessage.Decode {} b with
     | .ok m => gresStr (fun (r : IKEMessage × Bytes) => xhex r.2) (IKEMessage.Encode m)
     | .err => "decode-err"
@@ -71,7 +169,8 @@ def gHandle (line : String) : String :=
         | none => "bad-hex"
       else "bad-op"
     else if op == "enc" then
-      if h2 : 1 < ts.size then (if ts[1] == "msg" then gEncMsgOp ts else "unsupported") else "bad-op"
+      if h2 : 1 < ts.size then (if ts[1] == "msg" then gEncMsgOp ts else if ts[1] == "eap" then gEncEapOp ts else "unsupported") else "bad-op"
+    else if op == "akaset" then gAkasetOp ts
     else if op == "reenc" then
       if h3 : ts.size = 3 then
         match parseX ts[2] with
